@@ -26,6 +26,12 @@ fn gen_float(r: &mut Rng) -> f64 {
     }
 }
 fn gen_string(r: &mut Rng) -> String {
+    if r.below(150) == 0 {
+        // very long values: around the usual buffer sizes (4 KiB, 8 KiB, 64 KiB)
+        let n = *r.pick(&[4095usize, 4096, 4097, 8191, 8192, 8193, 65536, 70000]);
+        let esc_at = r.below(n as u64) as usize;
+        return (0..n).map(|i| if i == esc_at { *r.pick(&['\\', '"', '\n', 'é']) } else { 'h' }).collect();
+    }
     match r.below(12) {
         // long strings: escapable and multi-byte characters at and around positions 8, 16, 32, 64
         // (vectorised scanning works in blocks of such sizes)
@@ -52,7 +58,7 @@ pub fn gen_metric(r: &mut Rng, typ: PType, label_names: &[String]) -> PMetric {
         2 => *r.pick(&[i64::MAX, i64::MIN, 1]),
         _ => 0,
     };
-    let mut m = PMetric { labels, ts, ..Default::default() };
+    let mut m = PMetric { labels, ts, ts_set: ts == 0 && r.chance(12), ..Default::default() };
     match typ {
         PType::Counter => m.counter = Some(gen_float(r)),
         PType::Gauge => m.gauge = Some(gen_float(r)),
@@ -723,7 +729,8 @@ fn execute_c17(plan: &ApiPlan) -> RunOut {
             Call::Linear { start, width, count } => guard("linear_buckets", *count < 1 || *width <= 0.0, catch(|| linear_buckets(*start, *width, *count).is_ok())),
             Call::Exponential { start, factor, count } => guard("exponential_buckets", *count < 1 || *start <= 0.0 || *factor <= 1.0, catch(|| exponential_buckets(*start, *factor, *count).is_ok())),
             Call::Buckets { bounds, vec } => {
-                let unsorted = bounds.windows(2).any(|w| w[0] >= w[1]);
+                // not strictly increasing numbers (NaN anywhere included): the acceptance rule of C08
+                let unsorted = bounds.iter().any(|x| x.is_nan()) || bounds.windows(2).any(|w| !(w[0] < w[1]));
                 let o = HistogramOpts::new("h", "help").buckets(bounds.clone());
                 if *vec {
                     guard("HistogramVec::new", unsorted, catch(|| HistogramVec::new(o, &["l"]).map(|v| v.get_metric_with_label_values(&["x"]).map(|h| h.observe(1.0)).is_ok()).unwrap_or(false)));
